@@ -31,6 +31,24 @@ add('C01', 'exploration', 'runtime monitoring: recorded node-boundary history vs
     'Trusts the reference interpreter (DESIGN.md Appendix A) as the documented meaning; user functions pure/total; '
     'zip maxsize never reached.', 'DESIGN.md#C01')
 
+add('C10', 'exploration', 'runtime monitoring: recorded metadata at every node vs reference model (object identity)',
+    'Same executions as C01 with 0/1/2 fresh metadata dicts per input; at every node the metadata of every output is '
+    'compared, by identity and order, with what the reference interpreter prescribes; flat-list-of-dicts shape asserted '
+    'everywhere. Asynchronous nodes are covered by the async local monitors.',
+    'Trusts the reference interpreter for the documented placement of metadata.', 'DESIGN.md#C10')
+add('C05', 'exploration', 'runtime monitoring: instrumented RefCounter + holder multiset of the reference model at quiescent points',
+    'Every input carries an observed RefCounter; after every synchronous emit (and after the bounded settle of async runs) '
+    'each count is compared with the number of legitimate holders computed by the reference interpreter; signal given iff '
+    'no holder; never negative; never rising after zero.',
+    'Legitimate holders are those of DESIGN.md Appendix A; counters attached only where the entry stream has a child.',
+    'DESIGN.md#C05')
+add('C16', 'fault_enumeration', 'runtime monitoring with fault injection: every single user-function invocation fails in its own run',
+    'For small generated programs every invocation of every user function (incl. key and sink functions) is failed in a '
+    'separate run (exhaustive over single faults) plus random multi-fault sets, in plain, loop-thread (sync()) and '
+    'asynchronous modes; oracle: identity of the exception at the caller, state of the failing node vs reference node on '
+    'the non-failing inputs, no completion signal for failed elements.',
+    'Directly connected nodes only; reference node semantics from Appendix A.', 'DESIGN.md#C16')
+
 
 def main():
     props = [json.loads(l) for l in open(os.path.join(HERE, 'properties.jsonl'))]
